@@ -1025,6 +1025,339 @@ def section_proxy(ctx, tick):
     ctx.flush()
 
 
+# ------------------------------------------------------------------ section 4b: stripped control characters between styled runs
+CTL_ALPHA = [("t", "a"), ("t", "bc"), ("c", "\x08"), ("c", "\x0b"), ("c", "\x0c"), ("c", "\x07"), ("cr",), ("s", (1,)), ("s", (0, 31)), ("l", "http://u")]
+
+
+def rand_ctl_line(rng):
+    parts = []
+    for _ in range(rng.randint(1, 8)):
+        r = rng.random()
+        if r < 0.35:
+            parts.append(("t", rng.choice(["a", "bc", "hello", "x=1", "日本", "m", " "])))
+        elif r < 0.6:
+            parts.append(("c", rng.choice(L.STRIP_CTRL + ("\x07",))))
+        elif r < 0.66:
+            parts.append(("cr",))
+        elif r < 0.9:
+            k = rng.random()
+            parts.append(("s", tuple(rng.sample(SAFE_SGR, rng.randint(1, 3))) if k < 0.7 else
+                          (rng.choice([38, 48]), 5, rng.choice([1, 9, 16, 200])) if k < 0.85 else
+                          (rng.choice([38, 48]), 2, rng.randint(0, 255), 0, rng.randint(0, 255))))
+        else:
+            parts.append(("l", rng.choice(["http://e.x", None])))
+    return parts
+
+
+def section_controls(ctx, tick):
+    """BS / VT / FF (stripped), BEL (kept) and CR inside redirected lines, between ANSI-styled runs: `Text.append` strips them from the
+    plain text, so every span appended AFTER one must be placed by the stripped length.  Direct evaluation, per character,
+    against `lib_ansi.ctl_line_meaning` (computed from the structure the line was generated from): (a) `decode_line`,
+    (b) the whole path FileProxy.write (chunked anyhow) -> decode_line -> Text.append / Text.join -> console.print, read
+    back from the console's output."""
+    from rich.style import Style
+
+    rng = ctx.rng
+
+    def line_check(parts):
+        stream = L.ctl_stream(parts)
+        want, _st, _lk = L.ctl_line_meaning(parts)
+        lines, err = decode_line_case(ctx, stream, tick)
+        if err is not None:
+            return
+        t = lines[0]
+        got = [(ch,) + L.style_key(st) for ch, st in zip(t.plain, L.text_char_styles(t, Style.combine))]
+        ok = got == want and len(t) == len(t.plain) and all(0 <= sp.start <= sp.end <= len(t.plain) for sp in t.spans)
+        why = ""
+        if not ok:
+            why = (f"decoded {got!r}, the line means {want!r}" if got != want else
+                   f"len(text) = {len(t)} but its plain text has {len(t.plain)} characters; spans {t.spans!r}")
+        ctx.check(ok, "AnsiDecoder.decode_line control characters", stream, why)
+        ctx.note("ctl_line:" + ("with_ctl" if any(p[0] in ("c", "cr") for p in parts) else "no_ctl"))
+
+    for n in range(0, 5 if ctx.quick else 6):
+        for parts in itertools.product(CTL_ALPHA, repeat=n):
+            line_check(parts)
+    for _ in range(3000 if ctx.quick else 40000):
+        line_check(rand_ctl_line(rng))
+    ctx.flush()
+    # ---- through the proxy: lines cut into writes anywhere (inside escape sequences too), several lines per write
+    fixed = [[[("t", "ab"), ("c", "\x08"), ("s", (1, 31)), ("t", "cd"), ("s", (0,)), ("t", "ef")]],
+             [[("c", "\x0b"), ("t", "x")], [("s", (4,)), ("t", "u"), ("c", "\x0c"), ("s", (24,)), ("t", "n")], [("t", "z")]]]
+    for k in range(len(fixed) + (600 if ctx.quick else 8000)):
+        lines = fixed[k] if k < len(fixed) else [rand_ctl_line(rng) for _ in range(rng.randint(1, 4))]
+        s = "".join(L.ctl_stream(p) + "\n" for p in lines)
+        if k < len(fixed):
+            histories = [[("w", s[:i]), ("w", s[i:])] for i in range(len(s) + 1)]
+        else:
+            cuts = sorted(rng.randint(0, len(s)) for _ in range(rng.randint(0, 4)))
+            histories = [[("w", s[a:b]) for a, b in zip([0] + cuts, cuts + [len(s)])]]
+        want_rows, st, lk = [], None, None
+        for p in lines:
+            cells, st, lk = L.ctl_line_meaning(p, st, lk)
+            want_rows.append([c for c in cells if c[0] != "\x07"])  # the terminal reading of the output gives a BEL no cell
+        want_rows.append([])
+        for ops in histories:
+            tick(ops)
+            output = eval_history(ctx, ops, check_rows=False, site="FileProxy (control characters)")
+            got_rows, _ = L.stream_meaning(output)
+            ok = got_rows == want_rows
+            why = ""
+            if not ok:
+                gt = ["".join(c[0] for c in r) for r in got_rows]
+                wt = ["".join(c[0] for c in r) for r in want_rows]
+                why = (f"printed rows {gt!r}, the lines written show {wt!r}" if gt != wt else
+                       f"the characters are there but their attributes / colours / links differ: printed {got_rows!r}, written {want_rows!r}")
+            ctx.check(ok, "FileProxy output (control characters)", [("write", o[1]) for o in ops], why)
+            ctx.note("proxy_ctl_rows_checked")
+    ctx.flush()
+
+
+# ------------------------------------------------------------------ section 4c: every SGR parameter the encoder can emit is decoded
+ATTR_NUMBERS = [1, 2, 3, 4, 5, 6, 7, 8, 9, 21, 51, 52, 53]  # ECMA-48 8.3.117, in the bit order of rich's attributes (L.ATTRS)
+
+
+def section_params(ctx, tick):
+    """Props/C19.lean `encoder_sgr_params_decoded`, `encoder_attribute_numbers`, `truecolor_params_decoded`, `sgr_reset_exact`
+    evaluated on real rich, and the two composed model functions (`ansi_attr_params`, `ansi_color_params`) compared with it:
+    Style(one thing set).render on truecolor -> the parameter text between `ESC [` and `m` -> a fresh AnsiDecoder -> its style."""
+    import re
+
+    from rich.ansi import AnsiDecoder
+    from rich.color import Color, ColorSystem
+    from rich.style import Style
+
+    rng = ctx.rng
+
+    def params_of(st):
+        r = st.render("x", color_system=ColorSystem.TRUECOLOR, legacy_windows=False)
+        if r == "x":
+            return ""
+        m = re.fullmatch(r"\x1b\[([^m]*)mx\x1b\[0m", r)
+        return m.group(1) if m else None
+
+    def through(make, fn, args, what):
+        """(param text, decoder's final style) for a fresh style; the model request is compared on the way"""
+        tick(what)
+        p, final, ans = None, None, None
+        try:
+            p = params_of(make())
+        except BaseException as e:
+            ans = "err:" + type(e).__name__
+        if ans is None and p is None:
+            ans = "err:shape"
+        if ans is None:
+            d = AnsiDecoder()
+            try:
+                d.decode_line(ESC + "[" + p + "m")
+                final = d.style
+                ans = "ok:" + enc_str(p) + "!" + L.enc_final(final)
+            except BaseException:
+                ans = "ok:" + enc_str(p) + "!raised"
+        ctx.case(fn, [FLAGS] + args, ans, shape=fn, sample=what)
+        return p, final
+
+    # 13 attributes, set on and set off — twice, on fresh objects and through Style.parse (cached definitions)
+    for i, a in enumerate(L.ATTRS):
+        for on in (True, False):
+            for how in ("init", "parse"):
+                make = (lambda a=a, on=on: Style(**{a: on})) if how == "init" else (lambda a=a, on=on: Style.parse(a if on else "not " + a))
+                what = f"Style({a}={on}) [{how}] encoded for truecolor, parameters decoded by a fresh AnsiDecoder"
+                p, final = through(make, "ansi_attr_params", [i, int(on)], what)
+                want_p = str(ATTR_NUMBERS[i]) if on else ""
+                want = (frozenset([a]) if on else frozenset(), None, None, None)
+                ok = p == want_p and final is not None and L.strict_key(final) == want
+                ctx.check(ok, "encoder parameter decoded (attribute)", what,
+                          f"parameters {p!r} (ECMA-48: {want_p!r}), decoded {L.strict_key(final) if final is not None else 'raised'} expected {want}" if not ok else "")
+    # the 256 palette numbers, foreground and background: the form the encoder writes, and the explicit 38;5;n / 48;5;n form
+    for n in range(256):
+        for fg in (True, False):
+            c = Color.from_ansi(n)
+            what = f"Style({'color' if fg else 'bgcolor'}=Color.from_ansi({n})) encoded for truecolor, parameters decoded"
+            p, final = through((lambda c=c, fg=fg: Style(color=c) if fg else Style(bgcolor=c)), "ansi_color_params", [L.enc_color(c), int(fg)], what)
+            side = (lambda st: st.color) if fg else (lambda st: st.bgcolor)
+            other = (lambda st: st.bgcolor) if fg else (lambda st: st.color)
+            lo = (30 if fg else 40) + n if n < 8 else (82 if fg else 92) + n
+            want_p = str(lo) if n < 16 else f"{38 if fg else 48};5;{n}"
+            ok = (p == want_p and final is not None and side(final) == c and other(final) is None and not L.strict_key(final)[0] and final.link is None)
+            ctx.check(ok, "encoder parameter decoded (palette)", what, f"parameters {p!r} (expected {want_p!r}), decoder's style {final!r}" if not ok else "")
+            d = AnsiDecoder()
+            explicit = f"{38 if fg else 48};5;{n}"
+            try:
+                d.decode_line(ESC + "[" + explicit + "m")
+                st2 = d.style
+            except BaseException:
+                st2 = None
+            ok = st2 is not None and side(st2) == c and other(st2) is None and not L.strict_key(st2)[0]
+            ctx.check(ok, "explicit palette form decoded", ESC + "[" + explicit + "m", f"decoder's style {st2!r}, expected {'color' if fg else 'bgcolor'} {c!r} only" if not ok else "")
+    for fg in (True, False):
+        c = Color.default()
+        what = f"Style({'color' if fg else 'bgcolor'}='default') encoded for truecolor, parameters decoded"
+        p, final = through((lambda fg=fg: Style(color="default") if fg else Style(bgcolor="default")), "ansi_color_params", [L.enc_color(c), int(fg)], what)
+        got = final is not None and ((final.color if fg else final.bgcolor), (final.bgcolor if fg else final.color))
+        ok = p == ("39" if fg else "49") and got == (c, None)
+        ctx.check(ok, "encoder parameter decoded (default)", what, f"parameters {p!r}, decoder's style {final!r}" if not ok else "")
+    # truecolor: every value of one channel with the other two varied, both sides
+    for v in range(256):
+        for fg in (True, False):
+            trip = [(v, rng.randint(0, 255), rng.choice([0, 255, 7])), (rng.randint(0, 255), v, 0), (rng.choice([0, 9, 10, 99, 100, 255]), rng.randint(0, 255), v)][v % 3]
+            c = Color.from_rgb(*trip)
+            what = f"Style({'color' if fg else 'bgcolor'}=Color.from_rgb{trip}) encoded for truecolor, parameters decoded"
+            p, final = through((lambda c=c, fg=fg: Style(color=c) if fg else Style(bgcolor=c)), "ansi_color_params", [L.enc_color(c), int(fg)], what)
+            want_p = f"{38 if fg else 48};2;{trip[0]};{trip[1]};{trip[2]}"
+            got = final is not None and ((final.color if fg else final.bgcolor), (final.bgcolor if fg else final.color))
+            ok = p == want_p and got == (c, None) and not L.strict_key(final)[0]
+            ctx.check(ok, "encoder parameter decoded (truecolor)", what, f"parameters {p!r} (expected {want_p!r}), decoder's style {final!r}" if not ok else "")
+    # SGR 0 / omitted parameter resets exactly, from a fully set state, with and without a hyperlink
+    full = sgr(1, 2, 3, 4, 5, 6, 7, 8, 9, 21, 51, 52, 53, 38, 5, 200, 48, 2, 1, 2, 3)
+    for reset in (ESC + "[0m", ESC + "[m", ESC + "[;m", ESC + "[1;0m"):
+        for link in (None, "http://u"):
+            stream = full + (ESC + "]8;id=1;" + link + ESC + "\\" if link else "") + "a" + reset + "b"
+            d = AnsiDecoder()
+            try:
+                t = d.decode_line(stream)
+                got = [L.strict_key(x) for x in L.text_char_styles(t, Style.combine)]
+                ok = (t.plain == "ab" and len(got[0][0]) == 13 and got[0][3] == link and got[1] == (frozenset(), None, None, link)
+                      and L.strict_key(d.style) == (frozenset(), None, None, link) and (link is not None or not d.style))
+                why = f"decoded {got!r}, decoder's style {d.style!r}"
+            except BaseException as e:
+                ok, why = False, f"raised {type(e).__name__}: {e}"
+            decode_line_case(ctx, stream, tick)
+            ctx.check(ok, "SGR 0 resets exactly", stream, why if not ok else "")
+    ctx.flush()
+
+
+# ------------------------------------------------------------------ section 4d: the rest of FileProxy's file-object surface
+def section_api(ctx, tick):
+    """write(non-str) -> TypeError and nothing else; writelines = one write per element; flush with nothing pending prints
+    nothing; attributes the proxy does not define come from the wrapped file (`__getattr__`).  Histories compared per call
+    with the model (`proxy_api`), and evaluated directly: what is printed is what `lib_ansi.spec_units` says of the str
+    writes that were accepted (a twin specification, no model involved)."""
+    from rich.file_proxy import FileProxy
+
+    rng = ctx.rng
+    BAD = [b"bytes", None, 7, ["a"], 1.5]
+    pieces = ["a", "b\n", sgr(1) + "c", "\n", "d" + sgr(0) + "\ne", "", "x y", "[b]m[/b]\n"]
+
+    class Wrapped(io.StringIO):
+        def fileno(self):
+            return 42
+
+        def isatty(self):
+            return True
+
+        name = "<wrapped>"
+
+    def enc_api(ops):
+        out = []
+        for o in ops:
+            if o[0] == "w":
+                out.append("W=" + enc_str(o[1]) if isinstance(o[1], str) else "X")
+            elif o[0] == "f":
+                out.append("F0")
+            else:
+                out.append("L=" + "+".join("S" + enc_str(x) if isinstance(x, str) else "X" for x in o[1]))
+        return ",".join(out)
+
+    n_hist = 400 if ctx.quick else 5000
+    for k in range(n_hist):
+        ops = []
+        for _ in range(rng.randint(1, 7)):
+            r = rng.random()
+            if r < 0.45:
+                ops.append(("w", rng.choice(pieces)))
+            elif r < 0.6:
+                ops.append(("w", rng.choice(BAD)))
+            elif r < 0.75:
+                ops.append(("f",))
+            else:
+                ops.append(("l", [rng.choice(pieces) if rng.random() < 0.85 else rng.choice(BAD) for _ in range(rng.randint(0, 4))]))
+        ops.append(("f",))
+        tick(ops)
+        console, f = make_rec_console()
+        wrapped = Wrapped()
+        proxy = FileProxy(console, wrapped)
+        events, accepted, ok_type, why = [], [], True, ""
+        for o in ops:
+            console.rec = []
+            before = f.getvalue()
+            exc = None
+            try:
+                if o[0] == "w":
+                    proxy.write(o[1])
+                elif o[0] == "f":
+                    proxy.flush()
+                else:
+                    proxy.writelines(o[1])
+            except BaseException as e:
+                exc = e
+            evs = [enc_call(*c) for c in console.rec]
+            if exc is not None:
+                evs.append("R:" + type(exc).__name__)
+            events.append(",".join(evs))
+            # the specification: which str writes were accepted, in order
+            if o[0] == "w":
+                bad_here = not isinstance(o[1], str)
+                if not bad_here:
+                    accepted.append(("w", o[1]))
+            elif o[0] == "f":
+                bad_here = False
+                accepted.append(("f", False))
+            else:
+                bad_here = False
+                for x in o[1]:
+                    if not isinstance(x, str):
+                        bad_here = True
+                        break
+                    accepted.append(("w", x))
+            if bad_here != isinstance(exc, TypeError) or (exc is not None and not isinstance(exc, TypeError)):
+                ok_type, why = False, f"{o!r}: raised {type(exc).__name__ if exc else 'nothing'}, expected {'TypeError' if bad_here else 'no exception'}"
+            if o[0] == "w" and bad_here and (console.rec or f.getvalue() != before):
+                ok_type, why = False, f"{o!r}: a rejected write printed something"
+        ctx.case("proxy_api", [FLAGS, enc_api(ops)], "/".join(events), shape="api", sample=f"FileProxy API history {ops!r}")
+        ctx.check(ok_type, "FileProxy.write type check", repr(ops), why)
+        units, pending = L.spec_units(accepted)
+        want_rows, _ = L.stream_meaning("".join(u + "\n" for u in units))
+        got_rows, _ = L.stream_meaning(f.getvalue())
+        ok = got_rows == want_rows and pending == ""
+        ctx.check(ok, "FileProxy API output", repr(ops),
+                  f"printed rows {[''.join(c[0] for c in r) for r in got_rows]!r}, the accepted writes say {[''.join(c[0] for c in r) for r in want_rows]!r}" if not ok else "")
+        # passthrough and the wrapped file itself.  `__getattr__` is only consulted for names io.TextIOBase does not define:
+        # `name` (and `mode`, `buffer` …) come from the wrapped file; `fileno()` / `isatty()` are io.IOBase's own
+        # (UnsupportedOperation / False) whatever the wrapped file answers — observed and counted, outside the statement.
+        try:
+            ok = proxy.rich_proxied_file is wrapped and proxy.name == "<wrapped>" and wrapped.getvalue() == ""
+            why = "" if ok else "rich_proxied_file / name do not come from the wrapped file, or the wrapped file was written to"
+        except BaseException as e:
+            ok, why = False, f"raised {type(e).__name__}: {e}"
+        if k < 50:
+            for meth in ("fileno", "isatty"):
+                try:
+                    r = getattr(proxy, meth)()
+                    ctx.note(f"observed:proxy_{meth}:" + ("wrapped_file's" if r == getattr(wrapped, meth)() else f"own:{r!r}"))
+                except BaseException as e:
+                    ctx.note(f"observed:proxy_{meth}:raises_{type(e).__name__}")
+        if k < 50:
+            ctx.check(ok, "FileProxy attribute passthrough", repr(ops), why)
+    # flush with nothing pending, on a fresh proxy and after complete lines
+    for pre in ([], ["a\n"], ["a\n", "\n"], [""]):
+        console, f = make_rec_console()
+        proxy = FileProxy(console, io.StringIO())
+        for w in pre:
+            proxy.write(w)
+        console.rec = []
+        before = f.getvalue()
+        try:
+            proxy.flush()
+            proxy.flush()
+            ok = not console.rec and f.getvalue() == before
+            why = "" if ok else f"flush() with nothing pending printed {f.getvalue()[len(before):]!r}"
+        except BaseException as e:
+            ok, why = False, f"raised {type(e).__name__}: {e}"
+        ctx.check(ok, "FileProxy.flush with nothing pending", repr(pre), why)
+    ctx.flush()
+
+
 # ------------------------------------------------------------------ section 5: a real live display redirects
 def safe_line(rng):
     """One line over the property alphabet whose escape sequences mean the same to rich's decoder as written and as repaired."""
@@ -1296,6 +1629,9 @@ def run(ctx):
     guarded(ctx, "AnsiDecoder.decode_line", lambda tick: section_decoder(ctx, tick))
     guarded(ctx, "decode(encode)", lambda tick: section_roundtrip(ctx, tick))
     guarded(ctx, "FileProxy", lambda tick: section_proxy(ctx, tick))
+    guarded(ctx, "control characters", lambda tick: section_controls(ctx, tick))
+    guarded(ctx, "encoder parameters", lambda tick: section_params(ctx, tick))
+    guarded(ctx, "FileProxy API", lambda tick: section_api(ctx, tick))
     guarded(ctx, "Live redirect", lambda tick: section_live(ctx, tick))
     guarded(ctx, "C10 model vs C19 model", lambda tick: section_joint(ctx, tick))
     ctx.flush()
@@ -1369,7 +1705,21 @@ MANIFEST = {
     "live_screen_with_proxied_streams (C10's live_screen composed: start; any prints / refreshes / updates / resizes / writes to both streams; repaired stop — "
     "the screen shows the printed lines then the last frame, the printed lines being op by op what the proxy hands over, per stream exactly the complete lines "
     "of its own character stream, pending text completed above the last frame); both drivers are run on the same histories (section_joint).  legacy_windows: decode_encode_legacy (round trip with the link dropped).  "
-    "Tie: ~160k (quick) / ~1.5M (thorough) generated cases compared model-vs-rich for _ansi_tokenize, re_csi removal, decode_line / decode "
+    "Fourth deepening round: encoder_sgr_params_decoded (function level, `decide +kernel` on the translated tables, code as it is and as found: each of the 13 "
+    "attributes set False writes nothing, set True writes one parameter — encoder_attribute_numbers: 1-9, 21, 51, 52, 53 — that a fresh decoder reads back as "
+    "exactly that attribute; every palette number 0..255, foreground and background, in the form the encoder writes AND in the explicit 38;5;n / 48;5;n form, "
+    "and `default`, read back as exactly that colour on that side), truecolor_params_decoded (38;2;r;g;b / 48;2;r;g;b for ALL r g b <= 255, every variant: what "
+    "the encoder writes, how the decoder splits it, the style reached), sgr_reset_exact (`ESC[0m` and `ESC[m` from ANY style: no attribute, no colour, the "
+    "hyperlink kept, `Style.null()` without one); proxy_api_is_write_flush (histories of write(str) / flush / writelines([str…]) do exactly what the flattened "
+    "write / flush history does, so the proxy theorems cover writelines) and proxy_api_noops (write(non-str): TypeError, nothing changed, nothing printed; "
+    "write(\"\") and flush() with nothing pending do nothing).  New direct evaluations: per-character style of decode_line and of the whole path "
+    "FileProxy.write (chunked anywhere) -> decode_line -> Text.append / Text.join -> console.print on lines with BS / VT / FF (stripped), BEL (kept) and CR between "
+    "styled runs, against lib_ansi.ctl_line_meaning (computed from the structure the line was generated from; every sequence <= 4 over 10 tokens + 3,000 random "
+    "lines, 600 multi-line proxy histories + every cut position of two fixed ones) — this is what reports seeded change C19-g1 (Text.append placing spans by the "
+    "unstripped length) with a failing input; the statements of the four new parameter theorems on real rich (26 attribute cases x {init, parse}, 512 palette + 512 "
+    "explicit-form + 2 default + 512 truecolor cases, 8 reset streams) with the composed model functions compared (ansi_attr_params, ansi_color_params); 400 API "
+    "histories with non-str writes and writelines compared per call (proxy_api) and evaluated against spec_units of the accepted writes.  "
+    "Tie: ~180k (quick) / ~1.5M (thorough) generated cases compared model-vs-rich for _ansi_tokenize, re_csi removal, decode_line / decode "
     "(final decoder style included), Style.render / _render_buffer, and FileProxy histories (what the proxy asks console.print to print, per call), "
     "plus direct evaluation on rich's own output with oracles independent of the model: harness/term.py tokenizer + an ECMA-48 reading of SGR "
     "for the per-character meaning of streams, and a 15-line specification of the units a history must print; real Live / Progress redirect stdout "
@@ -1406,6 +1756,13 @@ MANIFEST = {
     "colours / links, frame last).  On the Lean side C10's Model/Live.lean is composed with the proxy for line texts only (live_write_is_proxy_write, "
     "live_screen_with_proxied_streams: which lines stand above the last frame, per stream; escape-free lines unchanged); the cells the console writes for a "
     "decoded, styled Text are not in that composition.  "
+    "Fourth round, still partial: the joint theorems with C10 remain about line TEXTS — C10's `Live.Line` is `List Char` and `Screen` cells carry no style, so "
+    "'with its ANSI styling preserved, above the live frame' is proved up to console.print (proxy_lines: the decoded Text per unit) and from there only evaluated "
+    "(terminal replay cell by cell with attributes / colours / links after every write under a real Live); composing it in Lean needs a styled cell type in "
+    "Model/Live.lean + Model/Term.lean and C03's encoder model (`Model/AnsiRender`) under `Live.doPrint`, i.e. changes to definitions other properties import.  "
+    "`__getattr__` passthrough has no model (stateless): `name` / `rich_proxied_file` are evaluated; `fileno()` / `isatty()` are NOT passed through (io.TextIOBase "
+    "defines them: UnsupportedOperation / False whatever the wrapped file answers) — observed and counted (observed:proxy_fileno / proxy_isatty), outside the "
+    "statement.  BEL outside an OSC string is an ordinary character of the decoded text (strip_control_codes removes BS VT FF CR only).  "
     "Trusted: Lean kernel; axioms propext / Classical.choice / Quot.sound; translators harness/tables.py + harness/gen/sgr_map.py; the correspondence harness.",
     "design_ref": "DESIGN.md section 7, C19",
 }
